@@ -11,7 +11,7 @@
      ST <L|D> <mono 0/1> <limit> <ncol> <temp 0/1>*ncol <filter> | op | ...      op ::= R <v> <attrs> | R0 <v> | C <collector>
      MP <L|D> <ncol> <temp 0/1>*ncol <filter> | op | ...     (a MeterProvider: limit = kAggregationCardinalityLimit, a counter)
    Observations:
-     EQ : A <attrs> B <attrs> <base_eq> <full_eq> h1|h0|h- <same_series> <paths_agree>
+     EQ : A <attrs> B <attrs> <base_eq> <full_eq> h1|h0|h- <same_series> <paths_agree> <path_hashes_agree>
      HM : one item per hop, separated by ';' :  - | NULL | v <z> | none | has 0|1 | size <n> | D <table> | REJECT
      ST/MP : one item per Collect, separated by ';' :  NOCB | P <table> | CRASH | REJECT *)
 From V Require Export C08.Spec.
@@ -315,12 +315,12 @@ Definition eq_model (f : afilter) (a b : list (bytes * ival)) : eq_obs :=
   let mb := mk_attrs f b in
   let e := attrs_eqb ma mb in
   (* same series: both measurements go to a table with room; the second finds the first's entry iff the keys compare equal *)
-  mk_eq_obs ma mb e e (if e then HSame else HNa) (match tfind mb (record 10 ma 1 []) with Some _ => true | None => false end) true.
+  mk_eq_obs ma mb e e (if e then HSame else HNa) (match tfind mb (record 10 ma 1 []) with Some _ => true | None => false end) true true.
 
 Definition print_hrel (h : hrel) : tok := match h with HSame => tag "h1" | HDiff => tag "h0" | HNa => tag "h-" end.
 Definition print_eq_obs (o : eq_obs) : list tok :=
   tag "A" :: print_attrs (eo_a o) ++ tag "B" :: print_attrs (eo_b o) ++
-  [tbool (eo_base o); tbool (eo_full o); print_hrel (eo_hash o); tbool (eo_series o); tbool (eo_paths o)].
+  [tbool (eo_base o); tbool (eo_full o); print_hrel (eo_hash o); tbool (eo_series o); tbool (eo_paths o); tbool (eo_phash o)].
 
 Fixpoint join_items (l : list (list tok)) : list tok :=
   match l with
@@ -384,6 +384,8 @@ Definition run_tag (l : list tok) : list tok :=
             else if existsb (fun r => match r with HRDump t => has_overflow_series t | _ => false end) rs then "hm_overflow"
             else "hm_room")]
   | Some (KSt mp c ops, ws) =>
+      (* the few very long histories (more than 2000 sets against the default limit) are not run a second time for their tag *)
+      if (N.to_nat 3000 <? length ops)%nat then [tag (if mp then "mp" else "st"); tag "long"] else
       let rs := run_ops c ops ws (init_storage c) in
       let m := fold_right Nat.max 0%nat (map cres_class rs) in
       let fast := (length (c_temps c) =? 1)%nat && negb (nth 0 (c_temps c) false) in
@@ -404,10 +406,10 @@ Definition parse_eq_obs (l : list tok) : option eq_obs :=
         | Some (a, tb :: r') =>
             if is_tag "B" tb then
               match parse_attrs r' with
-              | Some (b, [e1; e2; h; e3; e4]) =>
-                  match parse_bool e1, parse_bool e2, parse_hrel h, parse_bool e3, parse_bool e4 with
-                  | Some b1, Some b2, Some hh, Some b3, Some b4 => Some (mk_eq_obs a b b1 b2 hh b3 b4)
-                  | _, _, _, _, _ => None
+              | Some (b, [e1; e2; h; e3; e4; e5]) =>
+                  match parse_bool e1, parse_bool e2, parse_hrel h, parse_bool e3, parse_bool e4, parse_bool e5 with
+                  | Some b1, Some b2, Some hh, Some b3, Some b4, Some b5 => Some (mk_eq_obs a b b1 b2 hh b3 b4 b5)
+                  | _, _, _, _, _, _ => None
                   end
               | _ => None
               end
